@@ -21,7 +21,8 @@ Open Scope N_scope.
 Section Proofs.
   Variables EP mps spw : N.
   Variable skip : N -> bool.
-  Notation step := (cx_step EP mps spw skip).
+  Variable gate : bool.
+  Notation step := (cx_step EP mps spw skip gate).
   Notation tgt := (i_tgt EP).
 
   (* stage FSM state <-> phase of the specification *)
@@ -98,19 +99,20 @@ Section Proofs.
   Qed.
 
   (* every answer has a cause (single cycle, any state) *)
-  Lemma h_causes : forall h pid i dr sr, let o := h_outputs h pid i dr sr in
+  Lemma h_causes : forall h pid i dr sr cm, (cm = true -> i_ack i = true) -> let o := h_outputs h pid i dr sr cm in
     (h_txv o = true -> sr = true \/ i_dv i = true \/ i_sv i = true) /\
     (h_stall o = true -> dr = true \/ sr = true \/ i_dstall i = true) /\
     (h_ack o = true -> sr = true) /\
     (h_ac o = true \/ h_cc o = true \/ h_halt o <> 0 -> i_ack i = true).
   Proof.
-    intros h pid i dr sr.
+    intros h pid i dr sr cm Hcm.
     destruct h; cbn [h_outputs h_quiet h_txv h_stall h_ack h_ac h_cc h_halt]; repeat split;
       try (intro H; discriminate H); auto;
       try (intro H; apply andb_true_iff in H as [H _]; auto; fail);
       try (intros [H|[H|H]]; try discriminate H; try congruence; auto; fail).
     all: try (intro H; apply orb_true_iff in H as [H|H]; auto; fail).
     all: try (intros [H|[H|H]]; try discriminate H; try congruence; eauto; fail).
+    all: try (intros [H|[H|H]]; try discriminate H; try (apply Hcm; exact H); try (destruct cm; [auto | congruence]); fail).
     intros [H|[H|H]]; try discriminate H. destruct (i_ack i); [reflexivity | congruence].
   Qed.
 
@@ -146,7 +148,9 @@ Section Proofs.
       - intro H. apply orb_true_iff in H as [H|H]; [apply orb_true_iff in H as [H|H]|]; auto.
       - intros [H|H]; rewrite H; [reflexivity | apply orb_true_r]. }
     destruct (claimed skip i).
-    - destruct (h_causes (x_h x) (x_pid x) i dr sr) as (A & B & C & D).
+    - assert (Hcm : commit gate (x_h x) (x_wa x) (x_wc x) i = true -> i_ack i = true)
+        by (unfold commit; intro H; apply andb_true_iff in H as [H _]; exact H).
+      destruct (h_causes (x_h x) (x_pid x) i dr sr _ Hcm) as (A & B & C & D).
       destruct (Hack _ C) as [K1 K2]. repeat split; auto.
     - destruct (fb_causes dr sr) as (A & B & C & D).
       destruct (Hack _ C) as [K1 K2].
@@ -247,12 +251,34 @@ Section Proofs.
       cbn [app cx_env_trace] in H. apply andb_true_iff in H as [_ H]. exact H.
   Qed.
 
+  (* the two register-write flags are clear outside their own states (any history, no hypothesis) *)
+  Definition flags_inv (x : cx_state) : Prop :=
+    (x_wa x = true -> gate = true /\ x_h x = HSetAddress) /\ (x_wc x = true -> gate = true /\ x_h x = HSetConfig).
+  Lemma flags_inv_init : flags_inv cx_init.
+  Proof. split; discriminate. Qed.
+  Lemma flags_inv_step : forall x i, flags_inv x -> flags_inv (fst (step x i)).
+  Proof.
+    intros x i [Fa Fc]. cbn [step cx_step fst x_h x_wa x_wc]. unfold flags_inv.
+    destruct (i_std i); [|split; assumption].
+    generalize (commit gate (x_h x) (x_wa x) (x_wc x) i). intro cm.
+    generalize (ctl_dr EP (x_ctl x) i) (ctl_sr EP (x_ctl x) i). intros dr sr.
+    unfold h_next, w_next.
+    destruct (x_wa x) eqn:Ea, (x_wc x) eqn:Ec;
+      try (destruct (Fa eq_refl) as [Ga Ha]); try (destruct (Fc eq_refl) as [Gc Hc]); try congruence;
+      destruct gate; try discriminate;
+      destruct (x_h x); try discriminate; cbn [andb h_own_next];
+      destruct (i_rcv i), cm, sr, (i_new i); split; intro H; try discriminate H; split; reflexivity.
+  Qed.
+  Lemma flags_inv_run : forall tr x, flags_inv x -> flags_inv (xstate step x tr).
+  Proof. induction tr as [|i t IH]; intros x H; cbn [xstate]; [exact H | apply IH, flags_inv_step, H]. Qed.
+
   Theorem fresh_after_setup : forall h i, cx_env_trace cx_env0 (h ++ [i]) = true ->
     i_rcv i = true -> tgt i = true ->
     let x' := xstate step cx_init (h ++ [i]) in
     x_ctl x' = stage_of i /\
     (i_std i = true ->
-       x_h x' = (if skip i then HIdle else dispatch i) /\ x_pid x' = true /\ x_ea x' = false /\ x_sp x' = 0).
+       x_h x' = (if skip i then HIdle else dispatch i) /\ x_pid x' = true /\ x_ea x' = false /\ x_sp x' = 0 /\
+       x_wa x' = false /\ x_wc x' = false).
   Proof.
     intros h i He Hr Ht.
     assert (Heh : cx_env_trace cx_env0 h = true).
@@ -267,10 +293,16 @@ Section Proofs.
     rewrite Hr in Hrcv. cbn in Hrcv. apply andb_true_iff in Hrcv as [Hls Hnn]. apply negb_true_iff in Hnn.
     rewrite Hnn in Hep. cbn in Hep. apply N.eqb_eq in Hep. unfold i_tgt in Ht. apply N.eqb_eq in Ht.
     assert (Hcur : s_cur (sp_state EP sp0 h) = None) by (apply Hj; congruence).
-    cbn [step cx_step fst x_ctl x_h x_pid x_ea x_sp]. split.
+    cbn [step cx_step fst x_ctl x_h x_pid x_ea x_sp x_wa x_wc]. split.
     - rewrite Hc. unfold phase_of. rewrite Hcur. cbn [ctl_of ctl_next]. unfold i_tgt.
       rewrite Hr. replace (i_ep i =? EP) with true by (symmetry; apply N.eqb_eq; exact Ht). reflexivity.
-    - intro Hs. rewrite Hs. unfold h_next, h_pid_next, h_ea_next, h_sp_next. rewrite Hr. auto.
+    - intro Hs. rewrite Hs. unfold h_next, h_pid_next, h_ea_next, h_sp_next. rewrite Hr.
+      destruct (flags_inv_run h cx_init flags_inv_init) as [Fa Fc]. fold x in Fa, Fc.
+      repeat split; auto; unfold w_next; rewrite Hr.
+      + destruct (x_wa x); [destruct (Fa eq_refl) as [-> ->]; reflexivity|].
+        destruct (gate && _); reflexivity.
+      + destruct (x_wc x); [destruct (Fc eq_refl) as [-> ->]; reflexivity|].
+        destruct (gate && _); reflexivity.
   Qed.
 
   (* the state after a standard request's SETUP does not depend on the history *)
@@ -280,8 +312,8 @@ Section Proofs.
     xstate step cx_init (h1 ++ [i]) = xstate step cx_init (h2 ++ [i]).
   Proof.
     intros h1 h2 i H1 H2 Hr Ht Hs.
-    destruct (fresh_after_setup h1 i H1 Hr Ht) as [A1 B1]. destruct (B1 Hs) as (C1 & D1 & E1 & F1).
-    destruct (fresh_after_setup h2 i H2 Hr Ht) as [A2 B2]. destruct (B2 Hs) as (C2 & D2 & E2 & F2).
+    destruct (fresh_after_setup h1 i H1 Hr Ht) as [A1 B1]. destruct (B1 Hs) as (C1 & D1 & E1 & F1 & G1 & I1).
+    destruct (fresh_after_setup h2 i H2 Hr Ht) as [A2 B2]. destruct (B2 Hs) as (C2 & D2 & E2 & F2 & G2 & I2).
     destruct (xstate step cx_init (h1 ++ [i])), (xstate step cx_init (h2 ++ [i])). cbn in *. congruence.
   Qed.
 
@@ -307,9 +339,9 @@ Section Proofs.
 
   (* ---- C07, tokens for other endpoints are invisible ---- *)
   Lemma foreign_step : forall x i j, tgt i = false -> same_but_token i j -> skip i = skip j ->
-    step x i = step x j.
+    (gate = true -> i_new i = i_new j) -> step x i = step x j.
   Proof.
-    intros x i j Ht (E1 & E2 & E3 & E4 & E5 & E6 & E7 & E8 & E9 & E10 & E11 & E12 & E13 & E14 & E15 & E16 & E17 & E18) Hk.
+    intros x i j Ht SBT Hk Hnw. revert Hk. destruct SBT as (E1 & E2 & E3 & E4 & E5 & E6 & E7 & E8 & E9 & E10 & E11 & E12 & E13 & E14 & E15 & E16 & E17 & E18). intro Hk.
     assert (Htj : tgt j = false) by (unfold i_tgt in *; rewrite <- E1; exact Ht).
     assert (Hdr : forall c, ctl_dr EP c i = false /\ ctl_dr EP c j = false).
     { intros []; cbn; rewrite ?Ht, ?Htj, ?andb_false_r; auto. }
@@ -323,18 +355,21 @@ Section Proofs.
     destruct (Hdr (x_ctl x)) as [-> ->]. destruct (Hsr (x_ctl x)) as [-> ->].
     destruct (Hpg (x_ctl x)) as [-> ->]. destruct (Hnx (x_ctl x)) as [-> ->].
     unfold claimed, i_std, h_next, h_own_next, h_pid_next, h_ea_next, h_sp_next, h_outputs, dispatch, cf_unsupp,
-      fb_outputs, h_dstart, h_sstart.
-    rewrite E2, E4, E5, E6, E7, E8, E10, E11, E12, E13, E14, E15, E16, E17, E18, Hk. reflexivity.
+      fb_outputs, h_dstart, h_sstart, commit, w_next.
+    rewrite E2, E4, E5, E6, E7, E8, E10, E11, E12, E13, E14, E15, E16, E17, E18, Hk.
+    destruct gate; [rewrite (Hnw eq_refl)|]; reflexivity.
   Qed.
 
+  (* with the C08 repair the register-write states also watch new_token (of any endpoint) to drop a status answer
+     the host did not ACK; the comparison then keeps new_token *)
   Definition foreign_related (i j : N) : Prop :=
-    (tgt i = true -> i = j) /\ same_but_token i j /\ skip i = skip j.
+    (tgt i = true -> i = j) /\ same_but_token i j /\ skip i = skip j /\ (gate = true -> i_new i = i_new j).
 
   Theorem foreign_tokens_invisible : forall tr1 tr2 x, Forall2 foreign_related tr1 tr2 ->
     xrun step x tr1 = xrun step x tr2.
   Proof.
     induction tr1 as [|i t IH]; intros tr2 x H; inversion H as [|? j ? t2 Hr Ht]; subst; cbn [xrun]; [reflexivity|].
-    destruct Hr as (A & B & C).
+    destruct Hr as (A & B & C & D).
     assert (E : step x i = step x j).
     { destruct (tgt i) eqn:Et; [rewrite (A eq_refl); reflexivity | apply foreign_step; assumption]. }
     rewrite E. destruct (step x j) as [x' o]. rewrite (IH t2 x' Ht). reflexivity.
@@ -346,8 +381,9 @@ End Proofs.
 Section FirstAnswer.
   Variables EP mps spw : N.
   Variable skip : N -> bool.
+  Variable gate : bool.
   Hypothesis skip_ext : forall f i, same_fieldsb f i = true -> skip i = skip f.
-  Notation step := (cx_step EP mps spw skip).
+  Notation step := (cx_step EP mps spw skip gate).
 
   Definition hfresh (f : N) (x : cx_state) : Prop :=
     i_std f = true -> x_h x = (if skip f then HIdle else dispatch f) /\ x_pid x = true /\ x_ea x = false /\ x_sp x = 0.
@@ -375,6 +411,7 @@ Section FirstAnswer.
     assert (Edp : dispatch f = dispatch i) by (unfold dispatch; rewrite E4, Ecf; reflexivity).
     unfold rclass_of, hfresh in *. rewrite Estd, Edp, <- Hsk, E4, E3, E5 in *.
     cbn [step cx_step snd o_dr o_sr]. rewrite Hpg. unfold claimed.
+    generalize (commit gate (x_h x) (x_wa x) (x_wc x) i). intro cm.
     generalize (ctl_dr EP (x_ctl x) i) (ctl_sr EP (x_ctl x) i). intros dr sr Hex Hor.
     destruct (i_std i) eqn:Es; cbn [negb orb andb].
     2:{ unfold first_answer_ok. cbn. rewrite Hor. destruct (i_sack i); reflexivity. }
@@ -407,7 +444,7 @@ Section FirstAnswer.
       rewrite ?andb_false_r in *; try reflexivity; discriminate.
   Qed.
 
-  Lemma own_next_idle : forall h i, i_ack i = false -> i_dstall i = false -> h_own_next h i false false = h.
+  Lemma own_next_idle : forall h i, i_ack i = false -> i_dstall i = false -> h_own_next h i false false false = h.
   Proof. intros h i Ha Hd. destruct h; cbn; rewrite ?Ha, ?Hd; reflexivity. Qed.
 
   Lemma inv2_step : forall e s x fr i, inv EP e s x -> inv2 fr s x -> cx_env_ok e i = true ->
@@ -415,7 +452,7 @@ Section FirstAnswer.
     inv2 (fr_next EP s fr i) (sp_next EP s i) (fst (step x i)).
   Proof.
     intros e s x fr i Hi H2 He.
-    destruct (outputs_match EP mps spw skip s x i (proj1 Hi)) as (Odr & Osr & Opg).
+    destruct (outputs_match EP mps spw skip gate s x i (proj1 Hi)) as (Odr & Osr & Opg).
     assert (Hoh : onehot i = true).
     { unfold cx_env_ok in He. apply andb_true_iff in He as [_ He]. exact He. }
     split.
@@ -447,6 +484,8 @@ Section FirstAnswer.
         cbn [step cx_step fst x_h x_pid x_ea x_sp]. rewrite Hsi, Odr, Osr.
         unfold h_next, h_pid_next, h_ea_next, h_sp_next.
         match goal with H : i_rcv i = false |- _ => rewrite H end.
+        replace (commit gate (x_h x) (x_wa x) (x_wc x) i) with false
+          by (unfold commit; match goal with H : i_ack i = false |- _ => rewrite H end; reflexivity).
         rewrite own_next_idle by assumption.
         match goal with H : i_ack i = false |- _ => rewrite H end.
         match goal with H : i_dstall i = false |- _ => rewrite H end.
@@ -460,7 +499,7 @@ Section FirstAnswer.
     induction tr as [|i t IH]; intros e s x fr Hi H2 He; cbn [xrun fresh_along]; [reflexivity|].
     cbn [cx_env_trace] in He. apply andb_true_iff in He as [He Ht].
     destruct (inv2_step e s x fr i Hi H2 He) as [A B].
-    pose proof (inv_step EP mps spw skip e s x i Hi He) as Hn.
+    pose proof (inv_step EP mps spw skip gate e s x i Hi He) as Hn.
     destruct (step x i) as [x' o]. cbn [fst snd] in *. rewrite A. cbn [andb]. eapply IH; eassumption.
   Qed.
 
@@ -491,7 +530,7 @@ Qed.
 Lemma bits_lt : forall x lo w, bits x lo w < 2 ^ w.
 Proof. intros. unfold bits. apply land_ones_lt. Qed.
 
-Lemma step_out_wf : forall EP mps spw skip x i, out_wf (snd (cx_step EP mps spw skip x i)).
+Lemma step_out_wf : forall EP mps spw skip gate x i, out_wf (snd (cx_step EP mps spw skip gate x i)).
 Proof.
   intros. cbn [cx_step snd]. unfold out_wf. cbn [o_pid o_na o_nc o_halt].
   assert (B1 : forall v, bits v 0 7 < 128) by (intro v; apply (bits_lt v 0 7)).
@@ -501,24 +540,24 @@ Proof.
   split; [destruct (h_pid _); cbn; lia|].
   destruct (claimed skip i); [|cbn; lia].
   destruct (x_h x); cbn [h_outputs h_quiet h_na h_nc h_halt]; repeat split; try lia;
-    destruct (i_ack i); try lia; auto.
-  specialize (B3 (i_index i)). specialize (B4 (i_index i)). lia.
+    try destruct (commit gate _ _ _ i); destruct (i_ack i); try lia; auto.
+  all: specialize (B3 (i_index i)); specialize (B4 (i_index i)); lia.
 Qed.
 
-Lemma run_stepN : forall EP mps spw skip tr x,
-  Machine.run (cx_stepN EP mps spw skip) x tr = map cx_pack (xrun (cx_step EP mps spw skip) x tr).
+Lemma run_stepN : forall EP mps spw skip gate tr x,
+  Machine.run (cx_stepN EP mps spw skip gate) x tr = map cx_pack (xrun (cx_step EP mps spw skip gate) x tr).
 Proof.
   induction tr as [|i t IH]; intros x; cbn [Machine.run xrun map]; [reflexivity|].
-  unfold cx_stepN at 1. destruct (cx_step EP mps spw skip x i) as [x' o]. rewrite IH. reflexivity.
+  unfold cx_stepN at 1. destruct (cx_step EP mps spw skip gate x i) as [x' o]. rewrite IH. reflexivity.
 Qed.
 
-Lemma unpack_run : forall EP mps spw skip tr x,
-  map cx_unpack (Machine.run (cx_stepN EP mps spw skip) x tr) = xrun (cx_step EP mps spw skip) x tr.
+Lemma unpack_run : forall EP mps spw skip gate tr x,
+  map cx_unpack (Machine.run (cx_stepN EP mps spw skip gate) x tr) = xrun (cx_step EP mps spw skip gate) x tr.
 Proof.
   intros. rewrite run_stepN.
   revert x. induction tr as [|i t IH]; intros x; cbn [xrun map]; [reflexivity|].
-  pose proof (step_out_wf EP mps spw skip x i) as W.
-  destruct (cx_step EP mps spw skip x i) as [x' o]. cbn [snd] in W. cbn [map].
+  pose proof (step_out_wf EP mps spw skip gate x i) as W.
+  destruct (cx_step EP mps spw skip gate x i) as [x' o]. cbn [snd] in W. cbn [map].
   rewrite (cx_unpack_pack o W), IH. reflexivity.
 Qed.
 
@@ -533,7 +572,7 @@ Proof. destruct h; cbn; lia. Qed.
 
 Lemma cx_dec_enc : forall s, cx_dec (cx_enc s) = s.
 Proof.
-  intros [c h p e sp]. unfold cx_dec, cx_enc. cbn [x_ctl x_h x_pid x_ea x_sp].
+  intros [c h p e sp wa wc]. unfold cx_dec, cx_enc. cbn [x_ctl x_h x_pid x_ea x_sp x_wa x_wc].
   repeat (rewrite pk_div by first [apply cs_code_lt | apply hs_code_lt | apply b2n_lt]).
   repeat (rewrite pk_mod by first [apply cs_code_lt | apply hs_code_lt | apply b2n_lt]).
   rewrite cs_of_code, hs_of_code, !nb_b2n. reflexivity.
